@@ -96,7 +96,7 @@ Fixpoint wp (p : prog) (H : list hold) (K : bool) (Qr : val -> post) (Qt QF : po
           match r with
           | OLock | OLockSh => bl H l /\ wp (k VUnit) ((l, rop_ex r) :: H) K Qr Qt QF
           | OTry | OTrySh => wp (k (VBool true)) ((l, rop_ex r) :: H) K Qr Qt QF /\ wp (k (VBool false)) H K Qr Qt QF
-          | OUnlock | OUnlockSh => wp (k VUnit) (rem1 (l, rop_ex r) H) K Qr Qt QF
+          | OUnlock | OUnlockSh => In (l, rop_ex r) H /\ wp (k VUnit) (rem1 (l, rop_ex r) H) K Qr Qt QF   (* only held locks are released *)
           end
       | OKilled _ => wp (k (VBool false)) H K Qr Qt QF
       | OKill _ => False
@@ -263,16 +263,13 @@ Proof.
       * rewrite hcount_cons_same, A1. unfold writer_is. cbn [writer]. now rewrite Nat.eqb_refl.
       * rewrite hcount_cons_other by congruence. rewrite A2. reflexivity.
       * intros l0 b N. apply hcount_cons_other. congruence.
-    + (* OUnlock *) destruct wr as [x|]; [destruct (Nat.eqb_spec x t) as [->|Nx]|].
-      * exists (rem1 (l, true) H), K. split; [|split; [eapply clean_ext; [| | |exact C]; intros; reflexivity|exact W]].
-        eapply agree_set_raw; [exact A| | |].
-        -- rewrite hcount_rem1_same, A1. unfold writer_is. cbn [writer]. reflexivity.
-        -- rewrite hcount_rem1_other by congruence. rewrite A2. reflexivity.
-        -- intros l0 b N. apply hcount_rem1_other. congruence.
-      * exists H, K. rewrite rem1_absent in W by exact A1.
-        split; [eapply agree_ext; [| |exact A]; intros; reflexivity|]. split; [eapply clean_ext; [| | |exact C]; intros; reflexivity|exact W].
-      * exists H, K. rewrite rem1_absent in W by exact A1.
-        split; [eapply agree_ext; [| |exact A]; intros; reflexivity|]. split; [eapply clean_ext; [| | |exact C]; intros; reflexivity|exact W].
+    + (* OUnlock *) destruct W as [Hin W]. apply hcount_in in Hin. cbn [rop_ex] in Hin.
+      destruct wr as [x|]; [destruct (Nat.eqb_spec x t) as [->|Nx]|]; try lia.
+      exists (rem1 (l, true) H), K. split; [|split; [eapply clean_ext; [| | |exact C]; intros; reflexivity|exact W]].
+      eapply agree_set_raw; [exact A| | |].
+      * rewrite hcount_rem1_same, A1. unfold writer_is. cbn [writer]. reflexivity.
+      * rewrite hcount_rem1_other by congruence. rewrite A2. reflexivity.
+      * intros l0 b N. apply hcount_rem1_other. congruence.
     + (* OLockSh *) destruct W as [_ W]. destruct wr as [x|]; cbn [is_none andb].
       { split; [eapply agree_ext; [| |exact A]; intros; reflexivity|eapply clean_ext; [| | |exact C]; intros; reflexivity]. }
       destruct (negb (pw l)).
@@ -293,15 +290,13 @@ Proof.
       * rewrite hcount_cons_other by congruence. rewrite A1. reflexivity.
       * rewrite hcount_cons_same, A2. cbn [readers cnt]. now rewrite Nat.eqb_refl.
       * intros l0 b N. apply hcount_cons_other. congruence.
-    + (* OUnlockSh *) destruct (memb t rd) eqn:M.
-      * exists (rem1 (l, false) H), K. split; [|split; [eapply clean_ext; [| | |exact C]; intros; reflexivity|exact W]].
-        eapply agree_set_raw; [exact A| | |].
-        -- rewrite hcount_rem1_other by congruence. rewrite A1. reflexivity.
-        -- rewrite hcount_rem1_same, A2. cbn [readers]. now rewrite cnt_remove1_same.
-        -- intros l0 b N. apply hcount_rem1_other. congruence.
-      * assert (Z : cnt t rd = 0). { destruct (cnt t rd) eqn:E; [reflexivity|]. assert (memb t rd = true) by (apply cnt_memb; lia). congruence. }
-        exists H, K. rewrite rem1_absent in W by (cbn [rop_ex]; rewrite A2; exact Z).
-        split; [eapply agree_ext; [| |exact A]; intros; reflexivity|]. split; [eapply clean_ext; [| | |exact C]; intros; reflexivity|exact W].
+    + (* OUnlockSh *) destruct W as [Hin W]. apply hcount_in in Hin. cbn [rop_ex] in Hin. rewrite A2 in Hin.
+      assert (M : memb t rd = true) by (apply cnt_memb; exact Hin). rewrite M.
+      exists (rem1 (l, false) H), K. split; [|split; [eapply clean_ext; [| | |exact C]; intros; reflexivity|exact W]].
+      eapply agree_set_raw; [exact A| | |].
+      * rewrite hcount_rem1_other by congruence. rewrite A1. reflexivity.
+      * rewrite hcount_rem1_same, A2. cbn [readers]. now rewrite cnt_remove1_same.
+      * intros l0 b N. apply hcount_rem1_other. congruence.
   - (* OKilled *) destruct C as [C1 [C2 C3]]. rewrite C3. exists H, K. split; [exact A|]. split; [now split|exact W].
   - contradiction.
   - exists H, K. split; [eapply agree_ext; [| |exact A]; intros; reflexivity|]. split; [eapply clean_ext; [| | |exact C]; intros; reflexivity|apply W].
@@ -377,7 +372,8 @@ Lemma wp_nextop p : forall H K Qr Qt QF,
   | NThrow => Qt H K
   | NAbort => False
   | NFuel => QF H K
-  | NOp (ORaw k l) => rop_blocking k = true -> bl H l
+  | NOp (ORaw k l) => (rop_blocking k = true -> bl H l) /\
+                      (match k with OUnlock | OUnlockSh => In (l, rop_ex k) H | _ => True end)
   | NOp (ORead _ l) => exists x, In (l, x) H
   | NOp (OWrite _ l) => In (l, true) H
   | NOp _ => True
@@ -385,7 +381,7 @@ Lemma wp_nextop p : forall H K Qr Qt QF,
 Proof.
   induction p as [v| | | |o k IH|m IHm k IHk|b IHb h IHh]; intros H K Qr Qt QF W; cbn [nextop]; try exact W.
   - destruct o as [r l| | | | | | | | | | | |]; try exact I; cbn [wp] in W; try exact (proj1 W).
-    intros B. destruct r; try discriminate B; exact (proj1 W).
+    destruct r; (split; [intros B; try discriminate B; exact (proj1 W)|try exact I; exact (proj1 W)]).
   - cbn [wp] in W. pose proof (IHm H K _ _ _ W) as D.
     destruct (nextop m) as [v| | | |o]; try exact D. apply (IHk v H K Qr Qt QF D).
   - cbn [wp] in W. pose proof (IHb H K _ _ _ W) as D.
